@@ -31,3 +31,11 @@ Example C07_example_chain :
   /\ length (run regs [OConcat 0%nat 0%nat; OStripNulls 0%nat; ODistinct 1%nat; OObjectInsert 2%nat [99] 4%nat true; OBuildObject [[107]; [107]] [5%nat; 3%nat]]) = 7%nat.
 Proof. vm_compute. split; reflexivity. Qed.
 Print Assumptions C07_example_chain.
+
+(* ---- the same invariant for the operation language extended with the key-path operations and object_keys
+   (get_by_keypath, delete_by_keypath at any depth, object_keys): every document reachable by any sequence stays
+   well-shaped, hence canonical *)
+From JB Require Import TreeWf2.
+Theorem C07_chains_with_keypaths_stay_wellformed : forall ops regs, Inv regs -> Inv (run2 regs ops).
+Proof. exact chain2_inv. Qed.
+Print Assumptions C07_chains_with_keypaths_stay_wellformed.
